@@ -80,6 +80,7 @@ func extractC13() *lean {
 
 	// ---- Rollback: threshold and comparison
 	threshold := ".unknown_threshold"
+	direction := "MISSING"
 	cmp := ""
 	rb := c13Method(mgr, "SqlManager", "Rollback")
 	rbCallsDelete := false
@@ -89,10 +90,35 @@ func extractC13() *lean {
 			case *ast.CallExpr:
 				// time.Now().Add(-<dur>)
 				if exprString(x.Fun) == "time.Now().Add" && len(x.Args) == 1 {
-					if u, ok := x.Args[0].(*ast.UnaryExpr); ok && u.Op == token.SUB {
-						if s := c13Seconds(u.X); s != "" {
-							threshold = s
-						}
+					arg := x.Args[0]
+					direction = "future" // Add(d): a threshold AFTER now
+					if u, ok := arg.(*ast.UnaryExpr); ok && u.Op == token.SUB {
+						direction = "past" // Add(-d): a threshold BEFORE now
+						arg = u.X
+					}
+					// a named constant of this file
+					if id, ok := arg.(*ast.Ident); ok {
+						ast.Inspect(mgr, func(k ast.Node) bool {
+							if vs, ok := k.(*ast.ValueSpec); ok {
+								for i, nm := range vs.Names {
+									if nm.Name == id.Name && i < len(vs.Values) {
+										arg = vs.Values[i]
+										if u, ok := arg.(*ast.UnaryExpr); ok && u.Op == token.SUB {
+											arg = u.X
+											if direction == "past" {
+												direction = "future"
+											} else {
+												direction = "past"
+											}
+										}
+									}
+								}
+							}
+							return true
+						})
+					}
+					if s := c13Seconds(arg); s != "" {
+						threshold = s
 					}
 				}
 				if exprString(x.Fun) == "deleteUncommittedChange" {
@@ -140,6 +166,7 @@ func extractC13() *lean {
 	}
 	l.def("sweepLoadsWholeTransaction", "Bool", c13Bool(whole), whole)
 	l.def("sweepThresholdSeconds", "Nat", threshold, threshold)
+	l.def("sweepThresholdDirection", "String", fmt.Sprintf("%q", direction), direction)
 	l.def("sweepSelection", "String", fmt.Sprintf("%q", cmp), cmp)
 
 	// ---- transactionHelper: order tx1 -> range r.MethodManagers { Commit; break on error } -> tx2
